@@ -75,6 +75,7 @@ type scenario struct {
 	ReadsBody     bool
 	Peer          string
 	TrustedPeer   bool
+	GatewayLine   string // the request line, when it is not the original target (which X-Forwarded-Uri names then)
 	SentXFF       bool
 	SentForwarded bool
 	// SentForwarded2: the Forwarded header came on two lines
@@ -85,7 +86,7 @@ type scenario struct {
 
 func (s scenario) String() string {
 	return fmt.Sprintf("%s tls=%v %s?%s slash=%s rewrite=%+v headers=%v body=%d chunked=%v readsBody=%v peer=%s trusted=%v",
-		s.Method, s.TLS, s.RawPath, s.RawQuery, s.Slash, s.Rewrite, s.ClientHeaders, len(s.Body), s.Chunked, s.ReadsBody, s.Peer, s.TrustedPeer)
+		s.Method, s.TLS, s.RawPath, s.RawQuery, s.Slash, s.Rewrite, s.ClientHeaders, len(s.Body), s.Chunked, s.ReadsBody, s.Peer, s.TrustedPeer) + " requestLine=" + s.GatewayLine
 }
 
 func randCase(t *rapid.T, s string) string {
@@ -179,6 +180,12 @@ func genScenario(t *rapid.T) scenario {
 			}
 
 			s.ClientHeaders = append(s.ClientHeaders, vkit.HeaderKV{Name: randCase(t, name), Value: v})
+
+			// a gateway in front of heimdall may send its own request line and name the original target in the header only:
+			// the header as a whole (path and query) is the original request then
+			if name == "X-Forwarded-Uri" && s.TrustedPeer && rapid.Bool().Draw(t, "requestLineOfAGateway") {
+				s.GatewayLine = rapid.SampledFrom([]string{"/auth", "/auth?role=admin&id=1", "/?x=1", "/auth/check?next=%2Fy"}).Draw(t, "gatewayLine")
+			}
 		}
 	}
 
@@ -367,12 +374,18 @@ func TestForwardedRequestIsTheRewrittenRequest(t *testing.T) {
 		lr := vkit.LogicalRequest{Method: s.Method, Scheme: scheme, Host: "client-facing.example.com", RawPath: s.RawPath, RawQuery: s.RawQuery,
 			Headers: s.ClientHeaders, Body: s.Body, Chunked: s.Chunked, RemoteAddr: peer + ":50000"}
 
+		if s.GatewayLine != "" {
+			lr.RawPath, lr.RawQuery, _ = strings.Cut(s.GatewayLine, "?")
+		}
+
 		resp, err := w.Send(vkit.EntryProxy, lr, upstream)
 		if err != nil {
 			t.Fatalf("harness: cannot build request: %v\n%s", err, s)
 		}
 
 		vkit.S.Eval()
+		vkit.S.LabelIf(s.GatewayLine != "", "original_target_named_in_x_forwarded_uri_only")
+		vkit.S.LabelIf(s.GatewayLine != "" && s.RawQuery == "" && strings.Contains(s.GatewayLine, "?"), "original_target_without_query_behind_a_request_line_with_one")
 		vkit.S.LabelIf(strings.Contains(s.RawPath, "%"), "encoded_path")
 		vkit.S.LabelIf(s.Rewrite != nil, "rewrite")
 		vkit.S.LabelIf(s.Rewrite != nil && s.Rewrite.Strip != "" && strings.HasPrefix(s.RawPath, s.Rewrite.Strip), "strip_prefix_applies")
